@@ -497,7 +497,11 @@ def c18_server(path, ready_path=None, tcp_port=None, backlog=None):
 
         return (data, threading.Lock())  # a response that cannot be sent
 
+    async def unloadable(data):
+        return (data, Unloadable('value'))  # a response that pickles here and cannot be rebuilt by the client
+
     app = SocketApplication()
+    app.add_route('/unloadable', unloadable)
     app.add_route('/unpicklable', unpicklable)
     app.add_route('/tagged', tagged)
     app.add_route('/raw', raw)
